@@ -350,7 +350,9 @@ def call_exprs(rexpr, member, args, form):
 
 
 def surface_script(exprs):
-    body = "".join("try { %s; } catch (e%d) { if (typeof e%d === 'undefined') bad++; }\n" % (e, i, i) for i, e in enumerate(exprs))
+    # one function per call: the per-function limits of the bytecode format (255 constants) never
+    # refuse the batch as a whole
+    body = "".join("(function(){ try { %s; } catch (e) { if (typeof e === 'undefined') bad++; } })();\n" % e for e in exprs)
     return "var bad = 0;\n" + body + "bad"
 
 
@@ -375,7 +377,11 @@ def surface_task(exprs):
                     return engine.exc_info(e)
                 except Exception as e:
                     info = engine.exc_info(e)
-                    return None if info["family"] and info["cls"] in ("TimeLimitError", "MemoryLimitError") and len(es) > 1 and False else (None if info["family"] else info)
+                    if info["family"] and len(es) > 1:
+                        # every call sits in its own try/catch: a JSError that ends the whole script (a limit,
+                        # a refusal to compile) means the rest of the batch did not run -> isolate
+                        return "split"
+                    return None if info["family"] else info
         except pool.HarnessTimeout:
             return "hang"
 
@@ -384,7 +390,8 @@ def surface_task(exprs):
         if r is None:
             return
         if len(es) == 1:
-            bad.append((es[0], r))
+            if r != "split":
+                bad.append((es[0], r))
             return
         mid = len(es) // 2
         rec(es[:mid])
@@ -392,6 +399,49 @@ def surface_task(exprs):
 
     rec(list(exprs))
     return bad
+
+
+# ---- re-entrant mutation: script code run *by* a built-in changes the structure the built-in is walking
+ARR_MUT = ["a.push(7)", "a.pop()", "a.shift()", "a.unshift(8)", "a.splice(0, 1)", "a.splice(1, 0, 5, 6)", "a.length = 0", "a.length = 1",
+           "a.reverse()", "a.sort()", "a[0] = {}", "a.zz = 1", "delete a.zz", "a.fill && a.fill(0)"]
+OBJ_MUT = ["o['n' + n] = n", "delete o[Object.keys(o).pop()]", "if (n % 2) { o['m' + n] = 1; } else { delete o[Object.keys(o)[0]]; }", "o.zz = 9", "delete o.b", "delete o.a", "o.b = {x: 1}", "delete o.c; o.d = 4", "o.a = undefined", "for (var kk in o) delete o[kk]",
+           "o.e = 1; o.f = 2; o.g = 3", "Object.defineProperty(o, 'h', {get: function(){ return 1; }})"]
+ARR_SITES = [
+    "a.forEach(function(x){ %s; })", "a.map(function(x){ %s; return x; })", "a.filter(function(x){ %s; return true; })",
+    "a.some(function(x){ %s; return false; })", "a.every(function(x){ %s; return true; })", "a.find(function(x){ %s; return false; })",
+    "a.findIndex(function(x){ %s; return false; })", "a.reduce(function(p, x){ %s; return p; }, 0)", "a.reduceRight(function(p, x){ %s; return p; }, 0)",
+    "a.sort(function(x, y){ %s; return x < y ? -1 : 1; })", "[{toString: function(){ %s; return 'x'; }}].concat(a).join()",
+    "a.concat([{valueOf: function(){ %s; return 1; }}]).reduce(function(p, x){ return p + x; }, 0)",
+    "JSON.stringify(a, function(k, v){ %s; return v; })", "a[1] = {toJSON: function(){ %s; return 1; }}; JSON.stringify(a)",
+    "a[1] = {toString: function(){ %s; return 'k'; }}; a.join('-')", "a[1] = {toString: function(){ %s; return 'k'; }}; a.sort()",
+    "a[1] = {valueOf: function(){ %s; return 1; }}; a.indexOf(2) + a.map(function(x){ return x * 2; }).length",
+    "for (var q of a) { %s; }", "for (var q in a) { %s; }", "a.slice(0).forEach(function(){ %s; }); a.toString()",
+    "var g = {}; Object.defineProperty(g, 'p', {get: function(){ %s; return 1; }}); [g.p, a.length]",
+    "'x-y-z'.replace(/-/g, function(m){ %s; return '+'; })", "'abc'.split('').map(function(c){ %s; return c; }).join('')",
+    "new Uint8Array(a.length).set && new Uint8Array(8).set(a.map(function(x){ %s; return 1; }))",
+]
+OBJ_SITES = [
+    "JSON.stringify(o, function(k, v){ %s; return v; })", "o.a = {toJSON: function(){ %s; return 1; }}; JSON.stringify(o)",
+    "JSON.stringify(o, function(k, v){ if (k === 'a') { %s; } return v; }, 2)", "JSON.stringify(o, ['a', 'b', 'c'], {toString: function(){ %s; return ' '; }})",
+    "for (var k1 in o) { %s; }", "Object.keys(o).forEach(function(k2){ %s; })", "Object.defineProperty(o, 'g', {get: function(){ %s; return 1; }}); JSON.stringify(o)",
+    "Object.defineProperty(o, 'g', {get: function(){ %s; return 1; }}); Object.assign({}, o)", "Object.defineProperty(o, 'g', {get: function(){ %s; return 1; }}); [Object.values(o), Object.entries(o)]",
+    "Object.assign(o, {get q(){ %s; return 1; }})", "o.a = {valueOf: function(){ %s; return 1; }}; o.a + o.b", "o.a = {toString: function(){ %s; return 's'; }}; '' + o.a + JSON.stringify(o)",
+    "Object.create(o, {z: {get: function(){ %s; return 1; }}}).z", "var cp = {}; for (var k3 in o) { cp[k3] = o[k3]; %s; } JSON.stringify(cp)",
+    "JSON.parse(JSON.stringify(o), function(k, v){ %s; return v; })",
+]
+
+
+def reentrant_exprs():
+    out = []
+    for site in ARR_SITES:
+        for mut in ARR_MUT:
+            body = "if (n++ < 6) { %s; }" % mut
+            out.append(("(function(){ var n = 0; var a = [3, 1, 2, 4]; return %s; })()" % (site % body), "reentrant.array", "mutate"))
+    for site in OBJ_SITES:
+        for mut in OBJ_MUT:
+            body = "if (n++ < 6) { %s; }" % mut
+            out.append(("(function(){ var n = 0; var o = {a: 1, b: 2, c: 3}; return %s; })()" % (site % body), "reentrant.object", "mutate"))
+    return out
 
 
 HUGE = re.compile(r"2147483648|4294967296|9007199254740992|1e21|1e300|Infinity")
@@ -494,7 +544,7 @@ def main(chk):
     found, gl = discover_surface()
     chk.extra["surface_members"] = len(found)
     chk.extra["surface_globals"] = gl
-    exprs = surface_cases(chk, found, gl)
+    exprs = surface_cases(chk, found, gl) + reentrant_exprs()
     batches = pool.chunks(exprs, 150)
     res = pool.run(surface_task, [[e for e, _, _ in b] for b in batches], timeout=1200)
     for b, rb in zip(batches, res):
